@@ -4,10 +4,12 @@ From RL Require Import UData LineBuffer LineBufferOps KillRing LineBufferTotal.
 Definition kr_ok (k : killring) : Prop :=
   0 < kr_cap k /\ length (kr_slots k) <= kr_cap k
   /\ (kr_slots k = [] -> kr_index k = 0)
-  /\ (kr_slots k <> [] -> kr_index k < length (kr_slots k)).
+  /\ (kr_slots k <> [] -> kr_index k < length (kr_slots k))
+  /\ (kr_slots k = [] -> kr_newest k = 0)
+  /\ (kr_slots k <> [] -> kr_newest k < length (kr_slots k)).
 
 Lemma kr_new_ok n : 0 < n -> kr_ok (kr_new n).
-Proof. intros H. repeat split; cbn; auto; try lia. congruence. Qed.
+Proof. intros H. repeat split; cbn; auto; try lia; congruence. Qed.
 
 Lemma list_set_length {A} (l : list A) i x : length (list_set l i x) = length l.
 Proof. revert i; induction l as [|a l IH]; intros [|i]; cbn; auto. Qed.
@@ -31,16 +33,16 @@ Definition cur_slot (k : killring) : option str := nth_error (kr_slots k) (kr_in
 
 (* a kill after anything but a kill starts a new slot holding exactly the killed text *)
 Definition new_index (k : killring) : nat :=
-  if Nat.eqb (kr_index k) (kr_cap k - 1) then 0
-  else if negb (Nat.eqb (length (kr_slots k)) 0) then S (kr_index k) else kr_index k.
+  if Nat.eqb (kr_newest k) (kr_cap k - 1) then 0
+  else if negb (Nat.eqb (length (kr_slots k)) 0) then S (kr_newest k) else kr_newest k.
 
 Lemma kr_kill_not_kill k text m :
   kr_last k <> KAKill -> 0 < kr_cap k ->
   kr_kill k text m =
   if Nat.eqb (new_index k) (length (kr_slots k)) then
-    Ok (mkKr (kr_slots k ++ [text]) (kr_cap k) (new_index k) KAKill (kr_killing k))
+    Ok (mkKr (kr_slots k ++ [text]) (kr_cap k) (new_index k) KAKill (kr_killing k) (new_index k))
   else if Nat.ltb (new_index k) (length (kr_slots k)) then
-    Ok (mkKr (list_set (kr_slots k) (new_index k) text) (kr_cap k) (new_index k) KAKill (kr_killing k))
+    Ok (mkKr (list_set (kr_slots k) (new_index k) text) (kr_cap k) (new_index k) KAKill (kr_killing k) (new_index k))
   else Panic.
 Proof.
   intros Hl Hc. unfold kr_kill, new_index.
@@ -50,11 +52,11 @@ Qed.
 
 Lemma new_index_bound k : kr_ok k -> new_index k <= length (kr_slots k) /\ new_index k < kr_cap k.
 Proof.
-  intros [Hc [Hl [He Hn]]]. unfold new_index.
-  destruct (Nat.eqb (kr_index k) (kr_cap k - 1)) eqn:E1; [lia|]. apply Nat.eqb_neq in E1.
+  intros [Hc [Hl [_ [_ [He Hn]]]]]. unfold new_index.
+  destruct (Nat.eqb (kr_newest k) (kr_cap k - 1)) eqn:E1; [lia|]. apply Nat.eqb_neq in E1.
   destruct (kr_slots k) as [|s0 sl] eqn:Es.
   - cbn [length negb Nat.eqb]. rewrite (He eq_refl). lia.
-  - assert (kr_index k < length (s0 :: sl)) by (apply Hn; discriminate). cbn [length negb Nat.eqb] in *. lia.
+  - assert (kr_newest k < length (s0 :: sl)) by (apply Hn; discriminate). cbn [length negb Nat.eqb] in *. lia.
 Qed.
 
 Theorem kr_kill_new k text m :
@@ -62,20 +64,20 @@ Theorem kr_kill_new k text m :
   exists k', kr_kill k text m = Ok k' /\ cur_slot k' = Some text /\ kr_last k' = KAKill /\ kr_ok k'
              /\ kr_killing k' = kr_killing k.
 Proof.
-  intros Hok Hlast. pose proof Hok as [Hc [Hl [He Hn]]].
+  intros Hok Hlast. pose proof Hok as [Hc [Hl [He [Hn [He2 Hn2]]]]].
   destruct (new_index_bound k Hok) as [Hb1 Hb2].
   rewrite kr_kill_not_kill by assumption.
   destruct (Nat.eqb (new_index k) (length (kr_slots k))) eqn:E2.
   - apply Nat.eqb_eq in E2. eexists. split; [reflexivity|]. unfold cur_slot. cbn [kr_slots kr_index kr_last kr_cap kr_killing].
     split; [rewrite E2, nth_error_app2, Nat.sub_diag by lia; reflexivity|]. split; [reflexivity|]. split; [|reflexivity].
-    unfold kr_ok. cbn [kr_slots kr_index kr_cap]. rewrite app_length. cbn [length]. repeat split; try lia.
-    intros Hx. destruct (kr_slots k); discriminate.
+    unfold kr_ok. cbn [kr_slots kr_index kr_cap kr_newest]. rewrite app_length. cbn [length]. repeat split; try lia;
+      intros Hx; destruct (kr_slots k); discriminate.
   - apply Nat.eqb_neq in E2.
     replace (Nat.ltb (new_index k) (length (kr_slots k))) with true by (symmetry; apply Nat.ltb_lt; lia).
     eexists. split; [reflexivity|]. unfold cur_slot. cbn [kr_slots kr_index kr_last kr_cap kr_killing].
     split; [apply nth_list_set; lia|]. split; [reflexivity|]. split; [|reflexivity].
-    unfold kr_ok. cbn [kr_slots kr_index kr_cap]. rewrite list_set_length. repeat split; try lia.
-    intros Hx. apply (f_equal (@length str)) in Hx. rewrite list_set_length in Hx. cbn in Hx. lia.
+    unfold kr_ok. cbn [kr_slots kr_index kr_cap kr_newest]. rewrite list_set_length. repeat split; try lia;
+      intros Hx; apply (f_equal (@length str)) in Hx; rewrite list_set_length in Hx; cbn in Hx; lia.
 Qed.
 
 (* consecutive kills accumulate in the same slot: forward kills append, backward kills prepend *)
@@ -97,18 +99,42 @@ Proof.
   - intros j Hj. apply nth_list_set_other. congruence.
 Qed.
 
+(* ... in the slot after the MOST RECENT kill -- not after wherever yank-pop has rotated the index to -- and no other
+   slot is touched (repair of finding K1: a kill after a yank-pop used to overwrite a recent kill) *)
+Theorem kr_kill_new_others k text m k' :
+  kr_ok k -> kr_last k <> KAKill -> kr_kill k text m = Ok k' ->
+  kr_index k' = new_index k /\ kr_newest k' = new_index k
+  /\ forall j, j <> new_index k -> j < length (kr_slots k) -> nth_error (kr_slots k') j = nth_error (kr_slots k) j.
+Proof.
+  intros Hok Hlast. pose proof Hok as [Hc _]. rewrite kr_kill_not_kill by assumption.
+  destruct (Nat.eqb (new_index k) (length (kr_slots k))) eqn:E2.
+  - intros H; inversion H; subst k'. cbn [kr_slots kr_index kr_newest]. repeat split.
+    intros j _ Hj. rewrite nth_error_app1 by exact Hj. reflexivity.
+  - destruct (Nat.ltb (new_index k) (length (kr_slots k))); [|discriminate].
+    intros H; inversion H; subst k'. cbn [kr_slots kr_index kr_newest]. repeat split.
+    intros j Hj _. apply nth_list_set_other. congruence.
+Qed.
+
+Lemma kr_kill_more_newest k text m s k' :
+  kr_last k = KAKill -> 0 < kr_cap k -> cur_slot k = Some s -> kr_kill k text m = Ok k' -> kr_newest k' = kr_newest k.
+Proof.
+  intros Hl Hc Hs. unfold kr_kill, cur_slot in *. rewrite Hl.
+  replace (Nat.eqb (kr_cap k) 0) with false by (symmetry; apply Nat.eqb_neq; lia). rewrite Hs.
+  intros H. inversion H; subst. reflexivity.
+Qed.
+
 (* yank returns the current slot; yank-pop steps to the previous slot, cyclically, and tells
    how many bytes the previous yank inserted *)
 Theorem kr_yank_spec k s :
   cur_slot k = Some s ->
-  kr_yank k = (mkKr (kr_slots k) (kr_cap k) (kr_index k) (KAYank (blen s)) (kr_killing k), Some s).
+  kr_yank k = (mkKr (kr_slots k) (kr_cap k) (kr_index k) (KAYank (blen s)) (kr_killing k) (kr_newest k), Some s).
 Proof. intros H. unfold kr_yank, cur_slot in *. rewrite H. reflexivity. Qed.
 
 Theorem kr_yank_pop_spec k size :
   kr_last k = KAYank size -> kr_slots k <> [] -> kr_index k < length (kr_slots k) ->
   let idx := if Nat.eqb (kr_index k) 0 then length (kr_slots k) - 1 else kr_index k - 1 in
   exists s, nth_error (kr_slots k) idx = Some s
-            /\ kr_yank_pop k = (mkKr (kr_slots k) (kr_cap k) idx (KAYank (blen s)) (kr_killing k), Some (size, s)).
+            /\ kr_yank_pop k = (mkKr (kr_slots k) (kr_cap k) idx (KAYank (blen s)) (kr_killing k) (kr_newest k), Some (size, s)).
 Proof.
   intros Hl Hn Hi idx. unfold kr_yank_pop. rewrite Hl.
   destruct (kr_slots k) as [|s0 sl] eqn:Es; [congruence|]. fold idx.
@@ -134,7 +160,7 @@ Proof.
   - exists k. repeat split; auto.
   - cbn in Hn. apply andb_true_iff in Hn. destruct Hn as [He Hn]. cbn [kr_notify_all].
     destruct e; try discriminate; cbn [kr_notify]; try rewrite Hk; try (apply IH; assumption).
-    destruct (IH (mkKr (kr_slots k) (kr_cap k) (kr_index k) (kr_last k) false) eq_refl Hn)
+    destruct (IH (mkKr (kr_slots k) (kr_cap k) (kr_index k) (kr_last k) false (kr_newest k)) eq_refl Hn)
       as [k' [H1 [H2 [H3 [H4 H5]]]]].
     exists k'. repeat split; auto.
 Qed.
@@ -163,13 +189,13 @@ Proof.
   induction ks as [|[d t] ks IH]; intros k s Hl Hc Hs Hk.
   - exists k. repeat split; auto.
   - cbn [kill_events kr_notify_all kr_notify].
-    set (k1 := mkKr (kr_slots k) (kr_cap k) (kr_index k) (kr_last k) true).
+    set (k1 := mkKr (kr_slots k) (kr_cap k) (kr_index k) (kr_last k) true (kr_newest k)).
     cbn [kr_killing]. 
     destruct (kr_kill_more k1 t (match d with DForward => KAppend | DBackward => KPrepend end) s Hl Hc Hs)
       as [k2 [H1 [H2 [H3 [H4 [H5 [H6 [H7 H8]]]]]]]].
     change (kr_killing k1) with true. cbn match. rewrite H1.
     cbn [kr_notify_all kr_notify].
-    set (k3 := mkKr (kr_slots k2) (kr_cap k2) (kr_index k2) (kr_last k2) false).
+    set (k3 := mkKr (kr_slots k2) (kr_cap k2) (kr_index k2) (kr_last k2) false (kr_newest k2)).
     destruct (IH k3 (match d with DForward => s ++ t | DBackward => t ++ s end)) as [k' [G1 [G2 [G3 [G4 G5]]]]];
       try (unfold k3; cbn; auto; fail).
     + unfold k3; cbn. rewrite H5. exact Hc.
@@ -238,12 +264,12 @@ Theorem kill_then_yank k i t d :
                 /\ kr_yank k1 = (k2, Some t) /\ kr_last k2 = KAYank (blen t) /\ kr_killing k1 = false /\ kr_ok k1.
 Proof.
   intros Hok Hk Hl. cbn [kr_notify_all kr_notify]. cbn [kr_killing].
-  set (k0 := mkKr (kr_slots k) (kr_cap k) (kr_index k) (kr_last k) true).
+  set (k0 := mkKr (kr_slots k) (kr_cap k) (kr_index k) (kr_last k) true (kr_newest k)).
   assert (Hok0 : kr_ok k0) by exact Hok.
   destruct (kr_kill_new k0 t (match d with DForward => KAppend | DBackward => KPrepend end) Hok0 Hl)
     as [k' [H1 [H2 [H3 [H4 H5]]]]].
   rewrite H1. cbn [kr_notify_all kr_notify].
-  set (k1 := mkKr (kr_slots k') (kr_cap k') (kr_index k') (kr_last k') false).
+  set (k1 := mkKr (kr_slots k') (kr_cap k') (kr_index k') (kr_last k') false (kr_newest k')).
   assert (Hs : cur_slot k1 = Some t) by exact H2.
   exists k1. eexists. split; [reflexivity|]. split; [apply kr_yank_spec; exact Hs|].
   split; [reflexivity|]. split; [reflexivity|exact H4].
